@@ -12,7 +12,7 @@ CHECKS = {
          'bounded-exhaustive enumeration of memory images x environment answers on the real engines vs a reference machine',
          'Every image over a symbolic word alphabet (all address classes relative to the op, the IO cells, segment ends, '
          'top of the address space) for several segment layouts (incl. several lazily-zero segments listed in descending address order, chains through 33..131 scattered pages, a far segment crossing a 16K-word page edge, the catalog programs of the repository), every 0/1/EOF input behaviour within the read bound, on '
-         'featured(+trace)/fast/native with and without the last-ops ring at w=8/16/32/64; compared op by op with the '
+         'featured(+trace)/fast/native (and the forced page-backed native loop for the layouts with a far segment) with and without the last-ops ring at w=8/16/32/64; compared op by op with the '
          'reference machine (ip/flip/jump trace, IO calls, cause, op count, fault address). A coverage statement over a '
          'small scope, which is where per-op boundary bugs live.',
          'Trusts the 100-line reference machine R1 (cross-checked by three independent engines on every case); programs '
@@ -21,7 +21,7 @@ CHECKS = {
  'C07': ('exploration',
          'configuration product (storage knobs x engines) over exhaustively enumerated sparse program families vs a reference machine incl. final memory',
          'Every program of a two-segment family whose far segment sits at page edges, page-cache aliases, the flat-window '
-         'edge, 2^40/2^57 and the top of the address space, the w=64 fill-constant family a slice of the single-segment '
+         'edge, 2^40/2^57 and the top of the address space, the w=64 fill-constant family a slice of the single-segment images, ops exactly at / after the input bit, '
          'images and chains through 33..131 scattered 16K-word pages (page-table growth, cache-slot pressure), run under every storage configuration (flat, hybrid windows cut at every word around each boundary, forced '
          'paged, env window, measurement loop, ring lengths 1/2/3/65) and every engine; cause, op count, fault address, IO '
          'calls, last-ops list and the final content of every touched in-segment word must equal the reference machine.',
@@ -97,7 +97,7 @@ CHECKS = {
          '?: x operator combination in every position, non-associative comparison chains (must be rejected), 1500 literal forms '
          '(decimal/hex/binary, every printable char, every escape, all 256 \\xHH in both cases, strings up to 3 chars), and every '
          'pair tree x every partition of its three leaves into literal / constant / macro parameter / label / rep iterator '
-         '(value must not depend on the resolution stage), negative ternary conditions at every stage, and ~1500 expressions of one program sharing four constants (using a constant under an operator never changes it); each value is observed completely (320 bits + sign) through '
+         '(value must not depend on the resolution stage), negative ternary conditions at every stage, a bare label on either side of every operator, and ~1500 expressions of one program sharing four constants (using a constant under an operator never changes it); each value is observed completely (320 bits + sign) through '
          'assembled op words and compared with Python-int evaluation.',
          'R5 holds an independent transcription of the pinned precedence table (the repository documents it only in the grammar). '
          'Expressions with an undefined sub-expression or more than 300 bits are skipped (counted).',
@@ -107,7 +107,7 @@ CHECKS = {
          '16 skeletons (param vs caller label, @ local vs argument, nested argument capture, rep iterator vs names, nested rep, '
          'caller label spelled like an iterator two levels down, arity overloading, < globals and > externs, namespaces with '
          '.rel and ..rel names, $, a local passed down, a label declared through a parameter, rep counts 0/1/3, three call '
-         'levels with equal names, iterator spelled like its own macro parameter, relative names climbing to the root, a rep that does not use its iterator, guarded and mutual recursion, an expansion that emits nothing, parameters in pad / wflip statements, a label declared by several expansions) and call chains of 45..898 macros x every assignment of the pool {a,b,i} to '
+         'levels with equal names, iterator spelled like its own macro parameter, relative names climbing to the root, a rep that does not use its iterator, guarded and mutual recursion, an expansion that emits nothing, parameters in pad / wflip statements, a label declared by several expansions) and call chains of 45..898 macros; warning-free skeletons are also assembled with warnings as errors x every assignment of the pool {a,b,i} to '
          'the name slots (about 2 800 well-formed programs, 2 660 with a collision) x w x every 2-way file split: the image '
          'must equal the image of the program inlined by R4 on the AST; every worker process first assembles a program defining '
          'a, b, i as constants and then assembles every program next to the stl as well (no capture across assemblies).',
@@ -156,7 +156,7 @@ CHECKS = {
  'C08': ('model_checking',
          'explicit-state search over pointer targets x previous targets x cell/value alphabets for every pointer macro; all bounded push/pop sequences vs a list model; all bounded call trees',
          '32 hex pointer macro forms (read/write/xor/zero of hexes and bytes, 1- and 2-cell forms, *_and_inc, ptr_inc/dec/add/sub, '
-         'ptr_index and read_nth/write_nth with negative indices, ptr_flip, ptr_flip_dbit, ptr_wflip, ptr_wflip_2nd_word, ptr_jump) at '
+         'ptr_index and read_nth/write_nth with negative indices, ptr_flip, ptr_flip_dbit, ptr_wflip, ptr_wflip_2nd_word, ptr_jump; pointer arithmetic also over boundary pointer values without dereference) at '
          'w=64/32 and 8 bit-namespace pointer macros at w=64/32/16, over all 64 ordered (previous target, target) pairs of an 8-cell '
          'fenced buffer x cell and value alphabets (all 256 values of the pointed cell on a short target chain; the buffer straddles a 0x10000-bit carry boundary of pointer arithmetic): exactly the pointed cell / destination changes (whole-image frame invariant, guard '
          'cells, every other variable) and to_flip / to_jump mirror their _var copies. Stack (declared capacity = the deepest explored depth, so it gets exactly full): every sequence of <= 4 (6 thorough) '
@@ -169,7 +169,7 @@ CHECKS = {
          'exhaustive values for print/cast blocks and exhaustive short input strings for input blocks on the real stl, compared with Python formatting / parsing',
          '40 print forms (raw bits/bytes, hex digits with both cases, print_uint / print_int with every prefix/case option, decimal '
          'printers; bit and hex namespaces; constant outputs) over all values (all 65 536 16-bit values for the number printers), 12 '
-         'input forms over all 4 369 byte strings of length <= 3 (thorough 4) over a 16-byte alphabet with and without '
+         'input forms over all 4 369 byte strings (line helpers: also TAB / VT bytes) of length <= 3 (thorough 4) over a 16-byte alphabet with and without '
          'terminators (parsed value mod 16^n, stop byte, error exit, exact number of input bits consumed, end-of-input when '
          'truncated), 14 cast forms exhaustively incl. dirty destinations, and the 5 buffer helpers over all strings of length <= 3 '
          'over 4 bytes plus lines of 14..48 chars x counts 0..3, 15..17, 31..33, 48; variables and the whole image otherwise unchanged.',
